@@ -11,7 +11,7 @@ from ..core import Fail
 
 PID = "C10"
 RULE = ("histories of constructions, in-place transformations, operators (general-position operands, which get split in "
-        "place) and queries; then a battery of queries -- float(S), float(curve) (cached signed length) of every curve, "
+        "place) and queries; then a battery of queries -- float(S), moments of order <= 2, float(curve) (cached signed length) of every curve, "
         "box, containment of fixed points, S == deepcopy(S), S op T for a third shape T, T in S -- asked of the LIVE object "
         "of a deep copy built just before and of an object rebuilt from the current coordinates alone, and the same operator evaluated before and after the others on the same "
         "operands; a sample of histories is re-executed in a second process with another PYTHONHASHSEED and cold module "
@@ -39,7 +39,7 @@ def cases(ctx):
             tr = [("scale", probe, (F(-1), F(-1))), ("scale", probe, (F(-3), F(-3))), ("scale", probe, (F(2), F(2))),
                   ("scale", probe, (F(1, 2), F(3))), ("rot", probe, (F(3, 5), F(4, 5))), ("rot", probe, (F(-1), F(0))),
                   ("move", probe, (F(7), F(-2))), ("scale", probe, (F(-1, 2), F(-2)))][i % 8]
-            warm = [("float", probe), ("contains", probe, (F(0), F(0)), True)][i % 2]
+            warm = [("float", probe), ("contains", probe, (F(0), F(0)), True), ("poly", probe)][i % 3]
             h = h + [warm, tr]
             if i % 3 == 2:
                 # warm object, a copy of it, the COPY (or the original) transformed, then the other one is asked
@@ -77,6 +77,7 @@ def _battery(S, T):
     if isinstance(S, (I.EmptyShape, I.WholeShape)):
         return {"kind": type(S).__name__}
     out["area"] = float(S)
+    out["moms"] = [float(I.IntegrateShape.polynomial(S, a, b)) for a, b in ((1, 0), (0, 1), (1, 1), (2, 0), (0, 2))]
     out["lengths"] = [float(j) for j in S.jordans]
     b = S.box()
     out["box"] = [float(b.lowpt[0]), float(b.lowpt[1]), float(b.toppt[0]), float(b.toppt[1])]
